@@ -38,3 +38,11 @@ flow_contract(
     ensures_finished=["truthy(allowed)"],
     assigns=[],
 )
+
+# further shipped INPUT rails of the same shape: they finish only when their check let the input through
+for _file, _flow, _globals, _ok in [
+    ("nemoguardrails/library/content_safety/flows.co", "content safety check input", ["allowed", "policy_violations"], "truthy(allowed)"),
+    ("nemoguardrails/library/llama_guard/flows.co", "llama guard check input", ["allowed", "llama_guard_policy_violations"], "truthy(allowed)"),
+    ("nemoguardrails/library/jailbreak_detection/flows.co", "jailbreak detection heuristics", [], "not truthy(is_jailbreak)"),
+]:
+    flow_contract(_file, _flow, version="2.x", prop="C01", globals=_globals, ensures_finished=[_ok], assigns=list(_globals))
